@@ -645,3 +645,60 @@ func VerifC03DeleteFromDerivedList() {
 	verifCover("C03/derived-list/end")
 }
 
+
+// VerifC03DeleteComputedSelection: the selection yields a value that was computed from the document rather than a
+// node of it — a slice, an element of a sorted or reversed copy, a rebuilt entry. Whatever yq makes of that, nothing
+// the selection does not denote may disappear: the outcome is an error, the unchanged document, or the document
+// without exactly the elements the selection stands for.
+//   a: [V0, V1, V2, V3]   b: V4
+func VerifC03DeleteComputedSelection() {
+	var vs []string
+	for i := 0; i < 5; i++ {
+		vs = append(vs, verifStrN("v"+verifItoa(int64(i)), 1, "03"))
+	}
+	build := func() *CandidateNode {
+		return vDoc(vMap(vStr("a"), vSeq(vInt(vs[0]), vInt(vs[1]), vInt(vs[2]), vInt(vs[3])), vStr("b"), vInt(vs[4])))
+	}
+	i, j := verifIntRange("i", 0, 4), verifIntRange("j", 0, 4)
+	sels := []string{"del(.a[7770001:7770002])", "del(.a | .[7770001:7770002])", "(.a | sort | .[7770001]) as $x | del($x)", "(.a | reverse) as $r | del($r[7770001])", "del(.a | map(.) | .[7770001])",
+		"del(.a[7770001:])", "del([.a[7770001]] | .[0])", "del(.a | to_entries | .[7770001])", "del({\"k\": .b} | .k)"}
+	si := verifChoice("selection", len(sels))
+	e := vParse(sels[si])
+	vSubst(e, "7770001", "!!int", verifItoa(int64(i)))
+	vSubst(e, "7770002", "!!int", verifItoa(int64(j)))
+	doc := build()
+	unchanged := vDump(doc)
+	res, err := vEval(e, doc)
+	label := "computed-selection sel=" + sels[si]
+	if err != nil {
+		verifAssert(verifEqStr(vDump(doc), unchanged), "C03/document-changed-although-delete-failed "+label)
+		verifCover("C03/computed/error")
+		return
+	}
+	verifAssert(res.Len() == 1, "C03/result-count "+label)
+	if res.Len() != 1 {
+		return
+	}
+	got := vDump(res.Front().Value.(*CandidateNode))
+	if verifConcreteBool(verifEqStr(got, unchanged)) {
+		verifCover("C03/computed/unchanged")
+		return
+	}
+	// the elements a slice stands for (for the other selections: nothing else is acceptable)
+	want := ""
+	if si == 0 || si == 1 || si == 5 {
+		hi := j
+		if si == 5 {
+			hi = 4
+		}
+		snap := c03Snapshot(build())
+		var sel [][]int
+		for k := i; k < hi && k < 4; k++ {
+			sel = append(sel, []int{1, k})
+		}
+		want = c03ExpectedDump(snap, nil, sel)
+	}
+	verifObserve("got", got)
+	verifAssert(want != "" && verifEqStr(got, want), "C03/delete-of-a-computed-value-removed-something-else "+label)
+	verifCover("C03/computed/end")
+}
